@@ -426,6 +426,7 @@ func main() {
 	args := hx.ParseArgs()
 	meta := hx.NewMeta("h_life", args.Seed, args.Tier)
 	devnull, _ := os.OpenFile(os.DevNull, os.O_WRONLY, 0)
+	hx.KeepStderr = os.Stderr
 	os.Stderr = devnull
 	rng := hx.NewRng(args.Seed)
 	meta.Rule = "real serveChannel/readLoop under the hook scheduler: random handler tables (forward/stop/write-back/trigger/close/panic per kind, panic values error/string/runtime/net.Error), sync and async channels, 0-2 external closers plus closes from handlers, the tail handler and the sender-failure path (k-th transport write fails), Channel.Write/Trigger from other goroutines, random and sticky schedules; non-trivial = an exception was raised or >= 2 Close calls raced; distinct = distinct (scenario, schedule)"
